@@ -136,8 +136,13 @@ def _canon(x):
             pass
         a = np.asarray(x)
         return a
-    if isinstance(x, (bool, int, float)):
-        return np.asarray(x)
+    # Python scalars are canonicalised the way JAX does when they cross a transformation boundary
+    if isinstance(x, bool):
+        return np.asarray(x, dtype=np.bool_)
+    if isinstance(x, int):
+        return np.asarray(x, dtype=np.int64 if jax.config.jax_enable_x64 else np.int32)
+    if isinstance(x, float):
+        return np.asarray(x, dtype=np.float64 if jax.config.jax_enable_x64 else np.float32)
     return None
 
 
